@@ -183,14 +183,24 @@ func ListSolarFromBaZiBySectAndBaseYear(yearGanZhi string, monthGanZhi string, d
 						s = solarTime.GetSecond()
 					}
 					// 验证一下
-					solar := NewSolar(solarTime.GetYear(), solarTime.GetMonth(), solarTime.GetDay(), hour, mi, s)
-					lunar := solar.GetLunar()
-					dgz := lunar.GetDayInGanZhiExact()
-					if 2 == sect {
-						dgz = lunar.GetDayInGanZhiExact2()
+					candidates := []*Solar{NewSolar(solarTime.GetYear(), solarTime.GetMonth(), solarTime.GetDay(), hour, mi, s)}
+					// 时辰内有节令交接时，交接之前的时刻要用该时辰的第一个小时来验证
+					if hour > 0 && hour < 23 {
+						candidates = append(candidates, NewSolar(solarTime.GetYear(), solarTime.GetMonth(), solarTime.GetDay(), hour-1, 0, 0))
+					} else if 0 == hour && 1 == sect {
+						prevDay := solarTime.NextDay(-1)
+						candidates = append(candidates, NewSolar(prevDay.GetYear(), prevDay.GetMonth(), prevDay.GetDay(), 23, 0, 0))
 					}
-					if strings.Compare(lunar.GetYearInGanZhiExact(), yearGanZhi) == 0 && strings.Compare(lunar.GetMonthInGanZhiExact(), monthGanZhi) == 0 && strings.Compare(dgz, dayGanZhi) == 0 && strings.Compare(lunar.GetTimeInGanZhi(), timeGanZhi) == 0 {
-						l.PushBack(solar)
+					for _, solar := range candidates {
+						lunar := solar.GetLunar()
+						dgz := lunar.GetDayInGanZhiExact()
+						if 2 == sect {
+							dgz = lunar.GetDayInGanZhiExact2()
+						}
+						if strings.Compare(lunar.GetYearInGanZhiExact(), yearGanZhi) == 0 && strings.Compare(lunar.GetMonthInGanZhiExact(), monthGanZhi) == 0 && strings.Compare(dgz, dayGanZhi) == 0 && strings.Compare(lunar.GetTimeInGanZhi(), timeGanZhi) == 0 {
+							l.PushBack(solar)
+							break
+						}
 					}
 				}
 			}
